@@ -661,8 +661,16 @@ func (s *BgpServer) prePolicyFilterpath(peer *peer, path, old *table.Path) (*tab
 	}
 
 	// replace-peer-as handling
-	if path != nil && !path.IsWithdraw && conf.AsPathOptions.State.ReplacePeerAs {
-		path = path.ReplaceAS(conf.Config.LocalAs, conf.Config.PeerAs)
+	// The loop check below sees what the peer is sent, for announcements and
+	// withdrawals alike: a withdrawal that still carried the peer's AS would
+	// be dropped there and the peer would keep the route.
+	if conf.AsPathOptions.State.ReplacePeerAs {
+		if path != nil {
+			path = path.ReplaceAS(conf.Config.LocalAs, conf.Config.PeerAs)
+		}
+		if old != nil {
+			old = old.ReplaceAS(conf.Config.LocalAs, conf.Config.PeerAs)
+		}
 	}
 
 	if path = filterpath(peer, path, old); path == nil {
